@@ -61,7 +61,10 @@ def gen(rng, tier):
     for i, p in enumerate(ps):
         eps_push = any(t[1] == p['eps'] and t[4] != p['eps'] for t in p['delta'])
         limit = ([1, 2, 5, 20, 40] if eps_push else LIMITS)[i % 5] if i >= 6 else [30, 5][i % 2]
-        ws = G.words_str(p['Sigma'], 2 if len(p['Sigma']) > 1 else 3) + G.random_words(rng, p['Sigma'], 4, 5)
+        long_words = G.random_words(rng, p['Sigma'], 4, 5)
+        if eps_push and not quick:
+            long_words = []       # thorough tier: one of its 1000 random PDAs with a pushing epsilon loop needed more than 240 s per case in the model on words of length 5
+        ws = G.words_str(p['Sigma'], 2 if len(p['Sigma']) > 1 else 3) + long_words
         cfgs = [[rng.choice(p['Q']), [rng.choice(p['Gamma'] or ['x']) for _ in range(rng.randint(0, 3))]] for _ in range(3)]
         cases.append({'P': p, 'limit': limit, 'ws': ws, 'sets': [[['q0', []]], cfgs[:1], cfgs]})
     # dense epsilon graphs: k pairwise epsilon-connected states (k + 1 configurations in the closure, about k*k epsilon moves) with a
